@@ -718,3 +718,179 @@ macro_rules! recv_harness {
 recv_harness!(c01_recv_k1, 1);
 recv_harness!(c01_recv_k2, 2);
 recv_harness!(c01_recv_k3, 3);
+
+// ------------------------------------------------------------------------------------------------
+// Sender half at the BufMap level (the retransmission logic proper: which bytes are offered when).
+// Same ghost colour oracle and the same fault schedules as `send_half`, on the real
+// `BufMap::{extend_to, pick, ack_rcvd, shift, may_loss, sent}` without SendBuf's chunk store
+// (pure integer state: deeper schedules are affordable). `SendBuf::{write, pick_up, on_data_acked,
+// may_loss_data}` are thin wrappers: write = extend_to(min(written, max_data)) + store chunk;
+// pick_up = pick(.., max_data) + slice chunks; on_data_acked = ack_rcvd + shift + drop chunks;
+// may_loss_data = may_loss. The wrappers themselves run in `send_half` / `compose` (small shapes)
+// and one step at a time in C09.
+
+struct MapWorld<const P: usize> {
+    m: BufMap,
+    written: u64,
+    window: u64,
+    x: u64,
+    g: G,
+    has: [bool; P],
+    start: [u64; P],
+    end: [u64; P],
+    inx: [bool; P],
+    acked: [bool; P],
+    lost: [bool; P],
+}
+
+fn map_color(m: &BufMap, x: u64) -> G {
+    if x >= m.size() {
+        return G::Never;
+    }
+    let mut c = Color::Recved;
+    let n = m.0.len();
+    let mut i = 0;
+    while i < n {
+        let s = m.0[i];
+        if s.offset() <= x {
+            c = s.color();
+        }
+        i += 1;
+    }
+    match c {
+        Color::Pending => G::Never,
+        Color::Flighting => G::Flight,
+        Color::Lost => G::Lost,
+        Color::Recved => G::Acked,
+    }
+}
+
+impl<const P: usize> MapWorld<P> {
+    fn new() -> Self {
+        let t: u64 = kani::any();
+        kani::assume(t >= 1 && t <= W);
+        let window: u64 = kani::any();
+        kani::assume(window <= LIM);
+        let mut m = BufMap::default();
+        m.extend_to(if t < window { t } else { window });
+        let x: u64 = kani::any();
+        kani::assume(x < t);
+        MapWorld { m, written: t, window, x, g: G::Never, has: [false; P], start: [0; P], end: [0; P], inx: [false; P], acked: [false; P], lost: [false; P] }
+    }
+
+    fn check_color(&self) {
+        assert!(map_color(&self.m, self.x) == self.g, "send buffer colour of every byte == what its history implies");
+    }
+
+    fn pick(&mut self, r: usize, allow: Option<usize>, flow_limit: usize) {
+        if let Some(a) = allow {
+            kani::assume(a >= 1 && a as u64 <= LIM);
+        }
+        if let Ok((range, fresh)) = self.m.pick(|_| allow, flow_limit, self.window) {
+            assert!(range.start < range.end && range.end <= self.written && range.end <= self.window, "a frame carries written bytes inside the peer's window");
+            let total = range.end - range.start;
+            if let Some(a) = allow {
+                assert!(total <= a as u64, "congestion allowance respected");
+            }
+            if fresh {
+                assert!(total <= flow_limit as u64, "fresh data respects the connection flow limit");
+            }
+            let inx = self.x >= range.start && self.x < range.end;
+            if inx {
+                assert!(self.g == if fresh { G::Never } else { G::Lost }, "only never-sent or lost bytes are (re)sent; fresh iff never sent");
+                self.g = G::Flight;
+            }
+            self.has[r] = true;
+            self.start[r] = range.start;
+            self.end[r] = range.end;
+            self.inx[r] = inx;
+        }
+        self.check_color();
+    }
+
+    fn feedback_slot(&mut self) {
+        let j: usize = kani::any();
+        kani::assume(j < P);
+        if self.has[j] && !self.acked[j] {
+            let range = self.start[j]..self.end[j];
+            if kani::any() {
+                self.m.ack_rcvd(&range);
+                self.m.shift();
+                self.acked[j] = true;
+                if self.inx[j] {
+                    self.g = G::Acked;
+                }
+            } else {
+                self.m.may_loss(&range);
+                self.lost[j] = true;
+                if self.inx[j] && self.g == G::Flight {
+                    self.g = G::Lost;
+                }
+            }
+        }
+        self.check_color();
+    }
+
+    fn finish(mut self) {
+        let x = self.x;
+        // completion: the acked prefix mark reaches the end exactly when everything was acked
+        let mark = self.m.shift();
+        let size = self.m.size();
+        assert!(mark <= size && size == if self.written < self.window { self.written } else { self.window });
+        if x < mark {
+            assert!(self.g == G::Acked, "only acknowledged bytes lie below the acked-prefix mark");
+        }
+        if x == mark {
+            assert!(self.g != G::Acked, "the byte at the acked-prefix mark is unacknowledged");
+        }
+        kani::cover!(mark == self.written, "everything acknowledged");
+        // bounded progress
+        let needs = (self.g == G::Lost || self.g == G::Never) && x < self.window;
+        match self.m.pick(|_| Some(W as usize), W as usize, self.window) {
+            Ok((range, fresh)) => {
+                if needs {
+                    assert!(range.start <= x, "lowest byte needing (re)transmission is offered first");
+                }
+                if x >= range.start && x < range.end {
+                    assert!(needs && fresh == (self.g == G::Never), "only bytes needing (re)transmission are offered");
+                    self.g = G::Flight;
+                }
+                kani::cover!(!fresh, "retransmission offered");
+            }
+            Err(_) => assert!(!needs, "a lost or never-sent byte inside the window is offered by the next pick with sufficient limits"),
+        }
+        self.check_color();
+    }
+}
+
+fn map_half<const P: usize>(f: [usize; P]) {
+    let mut w = MapWorld::<P>::new();
+    let mut r = 0;
+    while r < P {
+        w.pick(r, kani::any(), kani::any());
+        let mut i = 0;
+        while i < f[r] {
+            w.feedback_slot();
+            i += 1;
+        }
+        r += 1;
+    }
+    kani::cover!(w.has[0] && w.lost[0] && w.acked[0], "ack after a (spurious) loss report");
+    kani::cover!(P < 2 || (w.has[P - 1] && w.lost[0] && w.start[P - 1] <= w.start[0] && w.end[P - 1] > w.start[0]), "a later frame retransmits bytes of the first");
+    w.finish();
+}
+
+macro_rules! map_harness {
+    ($name:ident, $p:literal, $f:expr) => {
+        #[kani::proof]
+        #[kani::unwind(6)]
+        #[kani::stub(BufMap::may_lost_from, ref_lost_from)]
+        fn $name() {
+            map_half::<$p>($f);
+        }
+    };
+}
+
+map_harness!(c01_map_p1, 1, [2]);
+map_harness!(c01_map_p2, 2, [1, 2]);
+map_harness!(c01_map_p3, 3, [1, 1, 2]);
